@@ -277,6 +277,9 @@ func genEps(r *vlib.Rng, n, maxPrio, maxConns int, uniqueIDs bool) []ep {
 		if r.Chance(1, 40) {
 			eps[i].Prio = -1 - r.Intn(3) // priorities are plain ints in config
 		}
+		if r.Chance(1, 5) { // the whole range configurations use: the default 100, 0, hundreds, thousands, and their neighbours
+			eps[i].Prio = vlib.Pick(r, []int{0, 1, 50, 99, 100, 101, 199, 200, 300, 1000, 1001, 65535, 1 << 20})
+		}
 	}
 	return eps
 }
